@@ -86,6 +86,43 @@ func (h *Harness) slowReaders(gen *Gen, nFill, nHist int) {
 		h.r.Hit("slow:history:" + cs.Cmd)
 		h.One(cs)
 	}
+	// ---- getdata while an earlier getdata is still postponed (send buffer over half full when it came): the new
+	//      entries are appended to the pending ones, up to 50000 entries in all; one more is a ban (GetDataTooBigA).
+	//      Totals at, just under and just over that limit; a count that lies; an undecodable count.
+	ent := func(k int) []byte {
+		b := make([]byte, 36*k)
+		for i := 0; i < k; i++ {
+			b[36*i] = byte(g.Pick(1, 2, 7))
+			b[36*i+3] = 0x40
+			copy(b[36*i+4:], g.Bytes(8))
+		}
+		return b
+	}
+	for i := 0; i < nHist+3; i++ {
+		k1 := g.Pick(1, 7, 100, 25000, 49999, 50000)
+		k2 := 50000 - k1 + g.Pick(-1, 0, 1, 1)
+		switch i % 5 {
+		case 3:
+			k2 = g.Pick(0, 1, 2, 50000)
+		case 4:
+			k2 = 1 + g.Intn(20)
+		}
+		if k2 < 0 {
+			k2 = 0
+		}
+		second := cat(vint(uint64(k2)), ent(k2))
+		switch g.Intn(8) {
+		case 0:
+			second = cat(vint(uint64(k2+1)), ent(k2)) // the count lies
+		case 1:
+			second = []byte{0xfd} // no count
+		}
+		fill := network.SendBufSize/2 + 1 + g.Intn(network.SendBufSize/4)
+		cs := Case{Cmd: "getdata", Pl: H(second), Pre: fmt.Sprintf("sbfill=%d", fill), Note: "slow-getdata-pending",
+			Seq: []Msg{{"getdata", H(cat(vint(uint64(k1)), ent(k1)))}}}
+		h.r.Hit(fmt.Sprintf("slow:getdata-pending:%s", []string{"under", "at", "over"}[sign(k1+k2-50000)+1]))
+		h.One(cs)
+	}
 	// ---- the state such histories leave behind, then one message of any command
 	for i := 0; i < nFill; i++ {
 		var cs Case
@@ -135,4 +172,14 @@ func roomClass(n int) string {
 		return "1k-200k"
 	}
 	return ">200k"
+}
+
+func sign(n int) int {
+	switch {
+	case n < 0:
+		return -1
+	case n > 0:
+		return 1
+	}
+	return 0
 }
